@@ -199,24 +199,71 @@ def gen_textures(chk, tier):
     return out
 
 
+F_KINDS = ("random", "near_singular", "shear", "stretch", "sym_spd", "sym_indefinite", "sym_negdef", "sym_detneg",
+           "diagonal", "stretch_halfturn", "minus_identity", "rotation")
+
+
+def exact_sym(U, lam):
+    """U diag(lam) U^T made EXACTLY symmetric (bitwise S == S.T)"""
+    S = U @ np.diag(np.asarray(lam, dtype=float)) @ U.T
+    return (S + S.T) / 2
+
+
+def halfturn(U, k):
+    """half-turn about column k of the orthogonal U (exactly symmetric)"""
+    d = -np.ones(3)
+    d[k] = 1.0
+    return exact_sym(U, d)
+
+
 def gen_F(chk, tier):
+    """deformation gradients with a partner rotation Q.  Besides generic F: EXACTLY symmetric F (positive definite,
+    indefinite, negative definite, negative determinant), diagonal F with signs, a stretch combined with a half-turn
+    about one of its principal axes (F = V.Q = Q.V is symmetric and indefinite; the partner Q is that half-turn, so
+    F.Q and Q.F are the symmetric positive definite V), -I, pure rotations."""
     rng = np.random.default_rng(chk.seed + 7)
-    n = 40 if tier == "quick" else 400
+    n = 4 * len(F_KINDS) if tier == "quick" else 40 * len(F_KINDS)
     out = []
     for i in range(n):
-        kind = ("random", "near_singular", "shear", "stretch")[i % 4]
+        kind = F_KINDS[i % len(F_KINDS)]
+        rep = i // len(F_KINDS)
+        Q = haar(rng)
+        U = haar(rng) if rep % 2 else np.eye(3)          # principal axes: generic / the coordinate axes
+        s = np.sort(np.exp(rng.normal(0, 0.7, 3)))[::-1] * np.array([1.5, 1.0, 0.6])   # distinct stretches, s0 largest
         if kind == "random":
             F = rng.normal(0, 1, (3, 3))
         elif kind == "near_singular":
-            U, V = haar(rng), haar(rng)
-            F = U @ np.diag([rng.uniform(0.5, 3), rng.uniform(1e-3, 0.5), 10.0 ** rng.uniform(-9, -3)]) @ V.T
+            V = haar(rng)
+            F = haar(rng) @ np.diag([rng.uniform(0.5, 3), rng.uniform(1e-3, 0.5), 10.0 ** rng.uniform(-9, -3)]) @ V.T
         elif kind == "shear":
             F = np.eye(3)
             F[1, 0] = rng.uniform(0, 8)
-        else:
-            U = haar(rng)
-            F = U @ np.diag(np.exp(rng.normal(0, 0.7, 3))) @ U.T
-        out.append(dict(kind=kind, F=F, Q=haar(rng)))
+        elif kind == "stretch":
+            W = haar(rng)
+            F = W @ np.diag(np.exp(rng.normal(0, 0.7, 3))) @ W.T
+        elif kind == "sym_spd":
+            F = exact_sym(U, s)
+        elif kind == "sym_indefinite":      # det > 0, the eigenvalue of largest magnitude is negative
+            F = exact_sym(U, [-s[0], -s[1], s[2]])
+        elif kind == "sym_negdef":
+            F = exact_sym(U, -s)
+        elif kind == "sym_detneg":          # a mirror combined with a stretch
+            F = exact_sym(U, [-s[0], s[1], s[2]] if rep % 4 < 2 else [s[0], s[1], -s[2]])
+        elif kind == "diagonal":
+            sg = np.array([(-1.0, -1.0, 1.0), (1.0, -1.0, -1.0), (-1.0, 1.0, -1.0), (1.0, 1.0, 1.0)][rep % 4])
+            F = np.diag(np.array([2.0, 1.0, 0.5])[rng.permutation(3)] * sg)
+            Q = np.diag(sg)                 # the half-turn that undoes the signs
+        elif kind == "stretch_halfturn":    # F = V.Q with Q a half-turn about a principal axis other than the long one
+            k = 1 + rep % 2
+            Q = halfturn(U, k)
+            d = -np.ones(3)
+            d[k] = 1.0
+            F = exact_sym(U, s * d)
+        elif kind == "minus_identity":
+            F = -np.eye(3) if rep % 2 == 0 else exact_sym(U, [-1.0, -1.0, -1.0])
+        else:                               # rotation (incl. exact half-turns: symmetric, eigenvalues 1, -1, -1)
+            F = halfturn(U, rep % 3) if rep % 2 == 0 else haar(rng)
+        out.append(dict(kind=kind, F=F, Q=Q))
     return out
 
 
@@ -727,6 +774,54 @@ def correspondence(chk, tier):
                               sample=dict(function="finite_strain", kind=c["kind"], op=op, F=[float(x) for x in G.reshape(-1)],
                                           result=[float(r[1][0])] + [float(x) for x in r[1][1]] if r[0] == "OK" else r[1])
                               if len(chk.cov["samples"]) < 6 else None)
+        # every LAPACK driver finite_strain accepts (keyword and positional), and the texture diagnostics called
+        # WITHOUT axis arguments (defaults: "a"; axis1 "b", axis2 "a") / with positional axis arguments
+        hist.setdefault("argument_convention", {})
+        for c in gen_F(chk, tier)[:len(F_KINDS)]:
+            G = c["F"]
+            for drv in ("ev", "evd", "evr", "evx"):
+                for how in ("keyword", "positional"):
+                    r = call(rec, dg.finite_strain, G, driver=drv) if how == "keyword" else call(rec, dg.finite_strain, G, drv)
+                    meta = dict(function="finite_strain", kind=c["kind"], op=f"driver={drv!r} ({how})", F=G)
+                    bump("argument_convention", f"finite_strain driver={drv} {how}")
+                    if r[0] == "OK" and check_calls(r[2], meta, ["eigh"]):
+                        k = r[2][0]
+                        if k[3].get("driver") != drv:
+                            bad.append((meta, f"LAPACK was called with {k[3]} instead of the caller's driver"))
+                        run.add("lcg", [], flat(G), ("OK", lower6(k[1])), dict(meta, what="matrix passed to eigh"), scale=max(1.0, float(np.abs(k[1]).max())))
+                        run.add("fse", [], flat(G) + list(k[4][0]) + flat(k[4][1]), ("OK", [float(r[1][0])] + list(r[1][1])), meta)
+                    elif r[0] == "ERR":
+                        bad.append((meta, f"implementation raised {r[1]}"))
+                    chk.note_case(("fse-driver", drv, how, G.tobytes()), nontrivial=True)
+        drng2 = np.random.default_rng(chk.seed + 13)
+        for n in (1, 2, 3, 9):
+            dos = texture(drng2, "clustered", n)
+            fl = flat(dos)
+            for how, a_pgr, a_co in (("defaults", (), ()), ("positional", ("c",), ("c", "b")), ("positional", ("b",), ("a", "a"))):
+                k_pgr = AXCODE[a_pgr[0]] if a_pgr else 0
+                k_co = (AXCODE[a_co[0]], AXCODE[a_co[1]]) if a_co else (1, 0)
+                bump("argument_convention", f"texture diagnostics {how}")
+                r = call(rec, dg.symmetry_pgr, dos, *a_pgr)
+                meta = dict(function="symmetry_pgr", kind="clustered", n=n, op=f"axis arguments {how} {a_pgr}", axis=AXES[k_pgr], axis2=AXES[k_co[1]], os=dos)
+                if r[0] == "OK" and check_calls(r[2], meta, ["eigvalsh"]):
+                    run.add("scatter", [k_pgr, n], fl, ("OK", lower6(r[2][0][1])), dict(meta, what="matrix passed to eigvalsh"), scale=max(1.0, n))
+                    run.add("pgr", [k_pgr, n], fl + list(r[2][0][4]), ("OK", list(r[1])), meta)
+                else:
+                    bad.append((meta, f"implementation: {r[:2]}"))
+                r = call(rec, dg.bingham_average, dos, *a_pgr)
+                meta = dict(meta, function="bingham_average")
+                if r[0] == "OK" and check_calls(r[2], meta, ["eigh"]):
+                    run.add("scatter", [k_pgr, n], fl, ("OK", lower6(r[2][0][1])), dict(meta, what="matrix passed to eigh"), scale=max(1.0, n))
+                    run.add("bingham", [k_pgr, n], fl + list(r[2][0][4][0]) + flat(r[2][0][4][1]), ("OK", list(r[1])), meta)
+                else:
+                    bad.append((meta, f"implementation: {r[:2]}"))
+                r = call(rec, dg.coaxial_index, dos, *a_co)
+                meta = dict(meta, function="coaxial_index", op=f"axis arguments {how} {a_co}", axis=AXES[k_co[0]])
+                if r[0] == "OK" and check_calls(r[2], meta, ["eigvalsh", "eigvalsh"]):
+                    run.add("coaxial", [k_co[0], k_co[1], n], fl + list(r[2][0][4]) + list(r[2][1][4]), ("OK", [float(r[1])]), meta)
+                else:
+                    bad.append((meta, f"implementation: {r[:2]}"))
+                chk.note_case(("argconv", how, a_pgr, a_co, dos.tobytes()), nontrivial=True)
         # finite strain on ONE deformation-gradient object that is modified in place between the calls; the caller
         # scribbles on every returned axis (it owns the result)
         hist.setdefault("fse_sequence", {})
